@@ -58,6 +58,9 @@ def specs(tier, seed):
     add("GrandCanonical", "A3", [["e", "E_trans*2"], ["f", "E_trans"]], calc="zero", T=800.0, mu=-0.3, geo_check=True)
     add("Canonical", "A3", [["d", "D_box"], ["s", "D_ball*2"]], geo_check=True)
     add("HamiltonianCanonical", "A3", [["h", "H"]], calc="harmonic", decos=["momenta"], geo_check=True)
+    # constraints without an index list (they do not survive slicing an Atoms object)
+    add("Canonical", "A3", [["d", "D_ball"], ["b", "D_box"]], decos=["fixcom"])
+    add("Isobaric", "A3", [["c", "C_iso"], ["d", "D_ball"]], decos=["fixcom"])
     # settings a user changes after construction: label for new atoms, accessible volume
     add("GrandCanonical", "A3", [["e", "E_trans"], ["d", "D_ball"]], calc="zero", T=800.0, mu=-0.25, user_settings={"default_label": 0, "accessible_volume": 90.0})
     add("GrandCanonical", "A3", [["e", "E_trans"]], calc="zero", T=800.0, mu=-0.3, user_settings={"default_label": -1, "accessible_volume": 400.0})
